@@ -106,6 +106,9 @@ func c04Sites(p *an.Prog, b *an.Bounds, inScope func(*ssa.Function) bool, skippe
 			skipped["functions out of scope"]++
 			continue
 		}
+		if c04SiteFilter != nil && !c04SiteFilter(fn) {
+			continue
+		}
 		sortVar, isSortCb := sortCallbackVar(fn)
 		for _, blk := range fn.Blocks {
 			for _, in := range blk.Instrs {
@@ -296,6 +299,43 @@ func c04IntAxiom(b *an.Bounds, c *ssa.Call, prove func(an.Lin) bool) []an.Fact {
 	return nil
 }
 
+// c04SiteFilter restricts the bounds obligations to some functions (used when another property
+// re-uses the bounds proof for its own functions); nil = every function in scope.
+var c04SiteFilter func(*ssa.Function) bool
+
+// boundsFor runs the bounds part of C04 for the functions selected by filter and adds its
+// obligations to r under the given rule name.
+func boundsFor(p *an.Prog, r *an.Report, rule string, min int, filter func(*ssa.Function) bool) {
+	sub := an.NewReport("C04", r.Tier, r.Seed)
+	c04SiteFilter = filter
+	func() {
+		defer func() {
+			c04SiteFilter = nil
+			if e := recover(); e != nil {
+				r.Fail("%s: bounds evaluation panicked: %v", rule, e)
+			}
+		}()
+		C04(p, sub)
+	}()
+	n := 0
+	for _, o := range sub.Obs {
+		if !strings.HasPrefix(o.Rule, "C04.B1") {
+			continue
+		}
+		n++
+		c := *o
+		c.Rule = rule
+		c.Key = rule + strings.TrimPrefix(o.Key, o.Rule)
+		r.Add(&c)
+	}
+	for _, f := range sub.Fatal {
+		r.Fail("%s: %s", rule, f)
+	}
+	if n < min {
+		r.Fail("%s: only %d functions with bounds constructs examined (expected at least %d)", rule, n, min)
+	}
+}
+
 func C04(p *an.Prog, r *an.Report) {
 	r.Explanation = "Every construct of the library that can raise a run-time panic from a length, count or type field — slice expressions, index expressions, make with a computed size, slice-to-array conversions, signed shift counts, integer division, and calls of external functions that panic on short arguments (encoding/binary (Put)UintN, crypto/ed25519 Sign/Verify) — inside the functions reachable from the exported entry points is turned into linear inequalities over SSA integer values and slice lengths (low >= 0, low <= high, high <= len, index < len, ...). Each inequality is proved by bounded Fourier-Motzkin elimination from facts that hold on every path to the construct: conditions of dominating branch edges, post-conditions of library callees (summaries computed bottom-up per function and per constant integer argument, conditional on err == nil or on a boolean result, with per-path case splits at joins), type ranges, lengths fixed by make/array types/slicing, ranges of never-written constant lookup tables, and length invariants of unexported struct fields established at every store. An inequality that cannot be proved locally but only mentions parameters becomes a pre-condition that every static call site has to establish (up to 5 levels); reaching an exported entry point with an unestablished pre-condition is a violation. Termination: every natural loop must have a counter moved by a constant on each back edge and bounded, in the direction of travel, by a loop-invariant quantity at every latch (or be a range over a map/string); the call graph of the reachable library functions must be acyclic; explicit panics, unchecked type assertions, channel operations and writes to possibly-nil maps are reported. Not decided here: nil dereferences (C20 decides zero values and parser result shapes), blocking inside external calls (the DNS lookup is confined by C17), panics inside external packages other than the tabled length pre-conditions, and the constructs listed as reviewed (data invariants of parser-built values)."
 	r.Rule = "B1: per function, every bounds-relevant construct proved (local facts / callee post-conditions / caller pre-conditions); B1r: frozen allowance for reviewed, undecided constructs; T1: per loop, bounded counter; T2: acyclic call graph; F1: no unconditional panic/blocking constructs"
@@ -417,6 +457,9 @@ func C04(p *an.Prog, r *an.Report) {
 	r.Analysed["bounds goals"] = nGoals
 	r.Analysed["goals proved locally"] = nLocal
 	r.Analysed["goals proved through callers"] = nCallers
+	if c04SiteFilter != nil {
+		return // restricted run on behalf of another property: bounds obligations only
+	}
 	r.Floor("bounds constructs", len(sites), 1200)
 	nl := c04Loops(p, r, b, inScope)
 	r.Floor("loops", nl, 40)
